@@ -133,8 +133,8 @@ def run_loss(rep, tier, seed, script, judge_ops, sizes=None, classes=None):
                     rep.cov.setdefault("classes", {})
                     rep.cov["classes"][r["class"]] = rep.cov["classes"].get(r["class"], 0) + 1
                 for op, v in r.get("maxrel", {}).items():
-                    rep.cov.setdefault("max_relative_error_seen", {})
-                    rep.cov["max_relative_error_seen"][op] = max(rep.cov["max_relative_error_seen"].get(op, 0.0), v)
+                    rep.cov.setdefault("max_fraction_of_tolerance_used", {})
+                    rep.cov["max_fraction_of_tolerance_used"][op] = max(rep.cov["max_fraction_of_tolerance_used"].get(op, 0.0), v)
                 rep.distinct(repr((ns, np_, r["beh"]["obs"], r["beh"]["tp"], r["beh"]["ts"], r["beh"]["wk"],
                                    [(c["op"], c["arg"]) for c in r["beh"]["calls"]])))
                 for f in r["findings"]:
